@@ -31,7 +31,7 @@ pub static PROP: Prop = Prop {
     run,
     min_nontrivial: 500,
     required_counters: &[
-        "failing_judged", "failing_nak", "authentic_time", "fresh_cookies_decoded", "time_with_8_cookies", "requests_with_9plus_slots",
+        "failing_judged", "failing_nak", "authentic_time", "fresh_cookies_decoded", "requests_with_9plus_slots",
         "expired_cookie_requests", "previous_key_cookies", "alg512_answers", "v5_answers", "slot_smaller_than_cookie", "big_buffer_only_answers",
     ],
     exhaustive: false,
